@@ -163,18 +163,18 @@ theorem record_wf3x {st : MState} (h : st.WF3x) {c : CompState} {sid : Nat} {S :
     (st.compactRecord c).1.WF3x ∧ (st.compactRecord c).1.abs = st.abs := by
   have hreal := hc.real h.1.1.ids
   exact ⟨wf3x_intro (compactRecord_wf3o h.core c hreal)
-    (compactRecord_segLastO h.1 h.2.2.1 h.2.2.2.1 h.2.2.2.2 c hreal), (M04_compactRecord st h.1 c hreal).2⟩
+    (compactRecord_segLastO h.1 h.2.2.1 h.2.2.2 c hreal), (M04_compactRecord st h.1 c hreal).2⟩
 
 /-- One copy step keeps `CurNewest` (with the rest of `WF3`). -/
 theorem record_newest {st : MState} (h : st.WF3) {c : CompState} {sid : Nat} {S : MSeg}
     (hc : CursorAt st c sid S) : (st.compactRecord c).1.CurNewest :=
-  (compactRecord_wf3c h.core c (hc.real h.1.1.ids)).2.2.1
+  (compactRecord_wf3c h.core c (hc.real h.1.1.ids)).2.2
 
 /-- Removing the source once every record has been processed keeps `WF3` and the contents. -/
 theorem cursor_end {st : MState} (h : st.WF3x) {c : CompState} {sid : Nat} {S : MSeg}
     (hc : CursorAt st c sid S) (ht : c.todo = []) :
     (st.removeSeg sid).WF3x ∧ (st.removeSeg sid).abs = st.abs := by
-  obtain ⟨h2, hlc, hN, hfit, hSL⟩ := h
+  obtain ⟨h2, hlc, hN, hSL⟩ := h
   have hSm : S ∈ st.segs := (seg?_some hc.seg).1
   have hSid : S.id = sid := (seg?_some hc.seg).2
   have hno : ∀ sl ∈ st.idx.slots, sl.seg ≠ sid := by
@@ -194,14 +194,14 @@ theorem cursor_end {st : MState} (h : st.WF3x) {c : CompState} {sid : Nat} {S : 
     rcases hq with hq | hq
     · exact Or.inl hq
     · right; intro o ho; have := hlb.1 o ho; omega
-  refine ⟨⟨hw2, ?_, SegsOrd.filter hN _, hfit, removeSeg_segLast hSL sid hno⟩, habsR⟩
+  refine ⟨⟨hw2, ?_, SegsOrd.filter hN _, removeSeg_segLast hSL sid hno⟩, habsR⟩
   subst hSid
   exact removeSeg_coupled h2 hlc hSL hN.seqs hSm hcond hno habsR
 
 /-- Sealing one segment keeps `WF3x` and the contents. -/
 theorem compactBegin_wf3x {st : MState} (h : st.WF3x) (id : Nat) :
     (st.compactBegin [id]).1.WF3x ∧ (st.compactBegin [id]).1.abs = st.abs := by
-  obtain ⟨h2, hlc, hN, hfit, hSL⟩ := h
+  obtain ⟨h2, hlc, hN, hSL⟩ := h
   obtain ⟨h1, habs1⟩ := compactBegin_wf2 h2 [id]
   have hSL1 := compactBegin_segLast h2 hSL [id]
   have hsegs1 : (st.compactBegin [id]).1.segs =
@@ -223,42 +223,23 @@ theorem compactBegin_wf3x {st : MState} (h : st.WF3x) (id : Nat) :
     split at hf
     · cases hf
     · exact hf
-  exact ⟨⟨h1, hlc1, hN1, hfit, hSL1⟩, habs1⟩
+  exact ⟨⟨h1, hlc1, hN1, hSL1⟩, habs1⟩
 
-/-- Sealing one NON-EMPTY segment keeps `CurNewest`. (An empty segment is writable and newest;
-sealing it breaks `SegsNewest.empty_open`, see the counterexample in M06.) -/
-theorem compactBegin_newest {st : MState} (hids : (st.segs.map (·.id)).Nodup) (hN : st.CurNewest)
-    (id : Nat) {s : MSeg} (hs : st.seg? id = some s) (hempty : s.data ≠ []) :
+/-- Sealing one segment keeps `CurNewest` (an EMPTY one included: the clause `empty_open`, which
+sealing an empty segment broke, is no longer part of `SegsNewest`). -/
+theorem compactBegin_newest {st : MState} (hN : st.CurNewest) (id : Nat) :
     (st.compactBegin [id]).1.CurNewest := by
-  have hid : s.id = id := (seg?_some hs).2
-  have hsm : s ∈ st.segs := (seg?_some hs).1
-  subst hid
-  have hsegs1 : (st.compactBegin [s.id]).1.segs =
-      st.segs.map (fun x => if [s.id].contains x.id then { x with full := true } else x) := rfl
-  have hgseq : ∀ x : MSeg, ((fun x : MSeg => if [s.id].contains x.id then { x with full := true } else x) x).seq
+  have hsegs1 : (st.compactBegin [id]).1.segs =
+      st.segs.map (fun x => if [id].contains x.id then { x with full := true } else x) := rfl
+  have hgseq : ∀ x : MSeg, ((fun x : MSeg => if [id].contains x.id then { x with full := true } else x) x).seq
       = x.seq := by intro x; dsimp only; split <;> rfl
   show SegsNewest _ st.maxSeq
   rw [hsegs1]
-  refine SegsNewest.map hN _ (fun x _ => hgseq x) ?_ ?_
-  · intro x _ hf
-    left
-    split at hf
-    · cases hf
-    · exact hf
-  · intro x hx hd
-    have hxd : x.data = [] := by
-      split at hd
-      · exact hd
-      · exact hd
-    have hne : x.id ≠ s.id := by
-      intro e
-      have := eq_of_id hids hx hsm e
-      rw [this] at hxd
-      exact hempty hxd
-    have : [s.id].contains x.id = false := by simp [hne]
-    rw [this]
-    simp only [Bool.false_eq_true, if_false]
-    exact hN.empty_open x hx hxd
+  refine SegsNewest.map hN _ (fun x _ => hgseq x) ?_
+  intro x _ hf
+  split at hf
+  · cases hf
+  · exact hf
 
 /-- The cursor at the beginning of a compaction of segment `id` that satisfies the pick rule. -/
 theorem cursor_begin {st : MState} (h2 : st.WF2) (hN : st.CurOrd) (id : Nat) {s : MSeg}
